@@ -93,12 +93,17 @@ type Stmt struct {
 type State struct {
 	Objects  map[string]*Object
 	Ver      map[int64][]uint64
+	// VerNode[k][i] is the cluster node (shard) that holds row i of stream k: `ver` is a node-local table,
+	// only a Distributed table over it sees the rows of every node
+	VerNode  map[int64][]int
 	Settings []SettingRow
 	seq      int
+	// Node is the cluster node the current connection talks to
+	Node int
 }
 
 func NewState() *State {
-	return &State{Objects: map[string]*Object{}, Ver: map[int64][]uint64{}}
+	return &State{Objects: map[string]*Object{}, Ver: map[int64][]uint64{}, VerNode: map[int64][]int{}}
 }
 
 func (s *State) Clone() *State {
@@ -108,6 +113,7 @@ func (s *State) Clone() *State {
 	}
 	for k, v := range s.Ver {
 		c.Ver[k] = append([]uint64(nil), v...)
+		c.VerNode[k] = append([]int(nil), s.VerNode[k]...)
 	}
 	c.Settings = append([]SettingRow(nil), s.Settings...)
 	c.seq = s.seq
@@ -140,10 +146,24 @@ func (s *State) MaxVer(k int64) uint64 {
 	return m
 }
 
+// VisibleVer returns the highest version of stream k that a SELECT from table tbl on the connected node sees.
+func (s *State) VisibleVer(k int64, tbl string) uint64 {
+	o := s.Objects[tbl]
+	global := o != nil && strings.HasPrefix(o.Engine, "Distributed")
+	var m uint64
+	for i, v := range s.Ver[k] {
+		if (global || s.VerNode[k][i] == s.Node) && v > m {
+			m = v
+		}
+	}
+	return m
+}
+
 // Conn is one client connection == one process incarnation.
 type Conn struct {
 	St     *State
 	Proc   int
+	Node   int // cluster node this incarnation is connected to
 	N      int // statements seen in this incarnation
 	Log    *[]Stmt
 	Faults map[int]FaultKind // statement index in this incarnation -> fault
@@ -163,6 +183,7 @@ func norm(q string) string { return strings.TrimSpace(wsRe.ReplaceAllString(q, "
 
 func (c *Conn) step(q string, args []any, apply func(n string, st *Stmt) error) error {
 	n := norm(q)
+	c.St.Node = c.Node
 	st := Stmt{Proc: c.Proc, Idx: c.N, SQL: n, Args: args}
 	f := c.Faults[c.N]
 	c.N++
@@ -557,7 +578,14 @@ func (s *State) exec(n string, args []any, st *Stmt) error {
 		if !ok1 || !ok2 {
 			return chErr(62, "bad bind arguments for ver insert: %v", args)
 		}
+		node := s.Node
+		if o := s.Objects[m[1]]; strings.HasPrefix(o.Engine, "Distributed") {
+			// sharding key rand(): any node
+			node = s.seq % 2
+		}
+		s.seq++
 		s.Ver[k] = append(s.Ver[k], uint64(v))
+		s.VerNode[k] = append(s.VerNode[k], node)
 		return nil
 	}
 	panic(UnknownStatement{n})
@@ -593,7 +621,7 @@ func (s *State) query(n string, args []any, st *Stmt) (*Rows, error) {
 		if !ok {
 			return nil, chErr(62, "bad bind argument")
 		}
-		return &Rows{data: [][]any{{s.MaxVer(k)}}, cols: []string{"ver"}}, nil
+		return &Rows{data: [][]any{{s.VisibleVer(k, tbl)}}, cols: []string{"ver"}}, nil
 	case "select-setting":
 		m := reSelSet.FindStringSubmatch(n)
 		if _, ok := s.Objects[m[1]]; !ok {
